@@ -322,11 +322,21 @@ def semantic_templates(fx, path):
                         grab(st2.effects)
                 except S.Undecidable:
                     pass
+    def calls_in(t, acc):
+        if isinstance(t, tuple) and t:
+            if t[0] == "call" and len(t) > 2 and isinstance(t[1], str) and t[1].endswith("Iterator::try_for_each"):
+                acc.append(t)
+            for x in t:
+                if isinstance(x, tuple):
+                    calls_in(x, acc)
     for st, o in res:
         grab(st.effects)
-        # a try_for_each that is the function's value (receiver is a temporary iterator, not a place)
-        if o[1] and o[1][0] == "call":
-            grab([o[1]])
+        # a try_for_each over a temporary iterator is a value (the function's result, or the operand of `?`), not an effect on a place
+        acc = []
+        calls_in(o[1], acc)
+        for a_, p_ in st.conds:
+            calls_in(a_, acc)
+        grab(acc)
     for k_ in sy.loop_order:
         for st, o in sy.loops[k_]["paths"]:
             grab(st.effects)
@@ -340,7 +350,7 @@ def check_display_templates(fx, rep, rule):
     if not p:
         return
     rep.fn(p)
-    dt = sorted(set(templates_in(fx, p)))
+    dt = sorted(set(semantic_templates(fx, p) or templates_in(fx, p)))
     text = {}
     for nm in ("format_throwable", "format_frames", "format_cause"):
         c = A.func(fx, "mapper", nm)
